@@ -7,7 +7,13 @@ free had not started is still allocated and freeable (spec_put_enabled on abs); 
 in-flight call are free (an in-flight get may hold at most one aligned block of its order in its tree; an in-flight
 partial free that observed the huge marker touches its whole huge frame: the stale-split window is reported as a NOTE and
 counted in `stale_split_leaks`); recovered stats = accounting of abs.  CORR[snap]: the extracted `lower_recover` of the
-machine's memory equals the recovered buffer."""
+machine's memory equals the recovered buffer.
+
+Whole allocator (`schedrun --api upper --snapshots`, driver/ustep.ml, theorems of UpperCrash.v): the same crash points for
+threads calling LLFree::get/put/drain/change_tree; the blocks that must survive are the client's blocks plus the blocks in
+the hands of in-flight gets (`in_hand` of the machine state), every frame allocated after recovery must be covered by them or
+touched by an in-flight lower call of the M1 view (`touched_b (m1_of s)`); the recovered LLFree instance must have equal fast
+and exact counts and pass validate()."""
 import schedprop
 import schedcommon as sc
 
@@ -28,6 +34,22 @@ def jobs(ctx, rel):
             ["--mode", "pct", "--scenario", "all", "--runs", "10000", "--depth", "4", "--seed", str(ctx.seed), "--snapshots"]]
 
 
+def jobs_upper(ctx, rel):
+    """the whole allocator (machine M2, UpperCrash.v): crash points of the upper-API scenarios"""
+    if ctx.quick:
+        return [["--api", "upper", "--mode", "exhaustive", "--scenario", "all", "--preemptions", "2", "--snapshots"],
+                ["--api", "upper", "--mode", "pct", "--scenario", "all", "--runs", "100", "--depth", "3", "--seed", str(ctx.seed), "--snapshots"]]
+    two = ",".join(n for n, t in sc.scenarios(rel, "upper") if t <= 2)
+    return [["--api", "upper", "--mode", "exhaustive", "--scenario", "all", "--preemptions", "3", "--snapshots"],
+            ["--api", "upper", "--mode", "exhaustive", "--scenario", two, "--preemptions", "4", "--snapshots"],
+            ["--api", "upper", "--mode", "pct", "--scenario", "all", "--runs", "5000", "--depth", "4", "--seed", str(ctx.seed), "--snapshots"]]
+
+
+UPPER_DESC = ("compiled LLFree::get/put/drain/change_tree + LLFree::new(Recover) at every write to the lower buffer vs machine M2 and "
+              "lower_recover (CORR), crash oracle on held + in_hand + touched of the M1 view (ORACLE [C05]), fast = exact count and "
+              "validate() of the recovered instance")
+
+
 def run(ctx):
     return schedprop.run(
         ctx, THEOREMS, "[C05]", jobs,
@@ -45,6 +67,7 @@ def run(ctx):
         "C01: at most P preemptions, P = 2 quick, 3-4 thorough, + PCT; whole and partial last trees); evaluations = steps "
         "replayed; snapshots are counted per suite",
         "compiled Lower::get/put + Lower::recover at every write vs machine M1 and lower_recover (CORR), crash oracle (ORACLE [C05])",
+        more=[(jobs_upper, UPPER_DESC, sc.UPPER_DRIVER)],
         # sequential crash points: crash + recover at quiescent points of sequential histories through the whole allocator
         extra=seqextra.seq_suites([dict(suite="recover", histories=48, ops=120), dict(suite="recover", histories=1500, ops=150)],
                                   corr=("result", "ents", "rows", "trees", "stats"), oracle=("C05", "C04", "C02", "C09")))
